@@ -481,6 +481,11 @@ func (oc *objectCache) get(obj types.Object) (val interface{}, errs []error) {
 		// Universe objects such as nil and true.
 		return nil, []error{fmt.Errorf("%v is not a provider or a provider set", obj)}
 	}
+	if obj.Parent() != obj.Pkg().Scope() {
+		// A parameter or other local: it may be spelled like a package-level
+		// provider or set that is already cached under the same name.
+		return nil, []error{fmt.Errorf("%v is not a provider or a provider set", obj)}
+	}
 	ref := objRef{
 		importPath: obj.Pkg().Path(),
 		name:       obj.Name(),
